@@ -471,6 +471,7 @@ class TextFormat(Bounded):
 
 
 class ExtractKeysounds(Bounded):
+    private = True      # calls the private helper itself: a failure needs something public failing too (pyvc/prop.py)
     name = "_extract_keysound_indices"
     function = "simfile.notes.NoteData._extract_keysound_indices"
 
